@@ -180,6 +180,10 @@ def c09(bb, ctx):
     if op["op"] == "refine" and op["n_largest"] > 0:
         allowed = before[:op["n_largest"]]
     for k, c in enumerate(before):
+        lost = [i for i in c if i not in where]
+        if lost:
+            return (f"{op['op']}: members {lost[:8]} of cluster {c[:8]} (size {len(c)}) are in no cluster "
+                    f"afterwards - the cluster did not re-enter the tree")
         if len({where.get(i) for i in c}) > 1:
             # size-ties: any n clusters of the n largest sizes may have been chosen
             if op["op"] == "refine" and op["n_largest"] > 0:
